@@ -28,6 +28,10 @@ class Ctx:
 
 
 def ctx(config='ws'):
+    import os
+    # thorough tier of the device-stack checks: the same rules over the all-features build of lorawan-device
+    if config == 'ws' and os.environ.get('LRS_CONFIG_OVERRIDE'):
+        config = os.environ['LRS_CONFIG_OVERRIDE']
     if config not in _cache:
         _cache[config] = Ctx(config)
     return _cache[config]
@@ -35,3 +39,24 @@ def ctx(config='ws'):
 
 def short_site(bf, bb, si=None):
     return str(flow.Site(bf.body, bb, si))
+
+
+# whole-object overwrites that replace the session (and with it every counter / flag it holds). The writer set of
+# Mac.state itself is decided by C11 (who may install a session) and C20 (restore installs the given session whole).
+SESSION_REPLACERS = {
+    'lorawan_device::mac::Mac::join_otaa': 'state = Otaa(..): a new join discards the session on application request',
+    'lorawan_device::mac::Mac::join_abp': 'state = Joined(new ABP session) on application request',
+    'lorawan_device::mac::Mac::set_session': 'state = Joined(restored session) on application request (C20)',
+    'lorawan_device::mac::Mac::handle_rx': 'state = Joined(session derived from an authenticated JoinAccept) (C11)',
+}
+
+
+def is_session_replacement(body, stmt, kind):
+    """an 'overwrite' writer that is one of the reviewed session replacements: a store to Mac.state in a listed function"""
+    if kind != 'overwrite' or body.path not in SESSION_REPLACERS:
+        return False
+    lhs = getattr(stmt, 'lhs', None)
+    if lhs is None or not lhs.proj:
+        return False
+    last = lhs.proj[-1]
+    return isinstance(last, dict) and 'f' in last and last.get('n') == 'state'
